@@ -81,7 +81,7 @@ func newGRPCClient(doneCtx context.Context, c *Client) (*GRPCClient, error) {
 
 	cl := &GRPCClient{
 		Conn:       conn,
-		Plugins:    c.config.Plugins,
+		Plugins:    c.plugins(),
 		doneCtx:    doneCtx,
 		broker:     broker,
 		controller: plugin.NewGRPCControllerClient(conn),
